@@ -328,6 +328,8 @@ func keyshareHashRule(P *Program, R *Report) {
 		}
 		R.decide(rule, kKSUserResp+":message", "the second message carries the nonce, the flag and the first message's challenge input unchanged",
 			g["Nonce"] == "arg#4" && g["IsSignatureSession"] == "arg#5" && g["UserChallengeInput"] == "arg#2", fmt.Sprint(g), P.Pos(fn.Pos()))
+		// the server hashes responseRequest.Context (1 when absent): the user must send the context it hashed itself
+		R.decide(rule, kKSUserResp+":context", "the second message carries the context the user's own challenge was computed with", g["Context"] == "arg#3", "Context = "+g["Context"]+" (the user's challenge uses arg#3)", P.Pos(fn.Pos()))
 	}
 }
 
